@@ -57,18 +57,36 @@ class Lock:
 # --------------------------------------------------------------------------
 # build steps
 
+CONSTS = dict(ok=True, detail="")
+CONSTS_PROPS = ("C01", "C03", "C04", "C14", "C19", "C20")
+
+
 def regen_consts():
-    """ConstsGen.v is regenerated from /repo on every run (DESIGN 5.5)."""
+    """ConstsGen.v (result codes, application tags, control OIDs) is regenerated from the gldap
+    package on every run; Consts.v proves the model's constants equal to them.  As for the
+    access table, a generated file that breaks Consts.v is not installed: the properties that
+    depend on the constants read CONSTS and report it."""
     path = os.path.join(COQ, "ConstsGen.v")
-    if not os.path.exists(os.path.join(COQ, "Consts.v")):
-        return True, "no Consts.v yet"
     rc, out = sh([VH, "consts"], timeout=60)
-    if rc != 0:
-        return False, "vh consts failed: " + out[-500:]
+    if rc != 0 or "gen_ResultSuccess" not in out:
+        CONSTS.update(ok=False, detail="vh consts failed: " + out[-500:])
+        return True, "failed"
     old = open(path).read() if os.path.exists(path) else None
-    if old != out:
-        with open(path, "w") as f:
-            f.write(out)
+    if old == out:
+        CONSTS.update(ok=True, detail="constants unchanged; Consts.v is part of the build")
+        return True, "ok"
+    trial = os.path.join(WORK, "consts_try")
+    sh("rm -rf %s && mkdir -p %s" % (trial, trial))
+    sh("cp %s %s/" % (os.path.join(COQ, "Consts.v"), trial))
+    open(os.path.join(trial, "ConstsGen.v"), "w").write(out)
+    # Consts.v needs the model files: compile against the installed library
+    rc, o = sh("timeout 300 coqc -Q %s G -Q . G ConstsGen.v && timeout 300 coqc -Q %s G -Q . G Consts.v" % (COQ, COQ), cwd=trial, timeout=700)
+    if rc == 0 or old is None:
+        open(path, "w").write(out)
+        CONSTS.update(ok=True, detail="constants regenerated and installed")
+    else:
+        CONSTS.update(ok=False, detail="Consts.v fails with the constants regenerated from /repo: " + o[-800:])
+    sh("rm -rf %s" % trial)
     return True, "ok"
 
 
@@ -1718,6 +1736,8 @@ def run_check(pid, tier, seed):
         except Exception as e:  # noqa
             broken.append("correspondence run failed: %r" % (e,))
         broken.extend(getattr(res, "broken", []))
+    if pid in CONSTS_PROPS and not CONSTS["ok"]:
+        broken.append("theorems of coq/Consts.v (the model's constants equal gldap's): " + CONSTS["detail"])
     known = load_known(pid)
     unknown_viol = []
     seen_known = {}
